@@ -354,7 +354,7 @@ def minimise(prop, exes, run, v, shrink, expect_fn, max_tests=150, budget_s=90, 
     progress = True
     while progress and tests < max_tests:
         progress = False
-        for argv in shrink(cur["argv"]):
+        for argv in (shrink(cur["argv"]) if not hasattr(shrink, "by_driver") else shrink.by_driver[cur["exe"][0]](cur["argv"])):
             if tests >= max_tests:
                 break
             cand = dict(cur)
@@ -414,6 +414,20 @@ def handle_violations(prop, batch, exes, shrink=None, expect_fn=None, key_fn=Non
                 reported.append({"class": cv[0], "detail": cv[1], "known_finding": k0})
             continue
         mrun, mres, mv = run, res, v
+        if v[0] == "timeout":
+            # wall-clock limits are the one thing the simulator does not control: re-run with a
+            # three times larger limit before believing a hang (a loaded machine is not a hang)
+            again = dict(run)
+            again["timeout"] = 3 * run.get("timeout", 120)
+            ares = execute(again, exes)
+            av = classify(again, ares)
+            if av is None:
+                log("  a run exceeded its wall-clock limit once but finished in %.0fs when repeated: not a hang (index %d)" % (ares["wall"], run["index"]))
+                continue
+            if av[0] != "timeout":
+                v = av
+                res = ares
+                mrun, mres, mv = again, ares, av
         if shrink is not None:
             try:
                 mrun, mres2, mv2 = minimise(prop, exes, run, v, shrink, expect_fn, orig_wall=res.get("wall"))
